@@ -621,8 +621,13 @@ func (p *recProc) OnEnd(ro sdktrace.ReadOnlySpan) {
 	}
 	// read what is handed over first (a deep copy by value: digest + projection), then wait at the gate:
 	// whatever changes the snapshot afterwards shows up in a later Reread
+	// (a copy of the token table: `c10 panics` registers tokens while other calls are in flight, and a token is
+	// registered before its call starts, so every token the snapshot can hold is in the copy)
 	st.mu.Lock()
-	kinds := st.kinds
+	kinds := make(map[int]string, len(st.kinds))
+	for t, k := range st.kinds {
+		kinds[t] = k
+	}
 	st.mu.Unlock()
 	lim := st.lim
 	if span != 1 {
